@@ -16,7 +16,9 @@ def setup():
 
 def sweep(exe, seed, count, outdir, opts):
     shutil.rmtree(outdir, ignore_errors=True)
-    rc, out = core.sh([exe, "sweep", str(seed), str(count), outdir] + opts, timeout=1500)
+    # the sweep stops taking new cases after 1200 s (a loaded machine truncates the sample); the outer
+    # limit is only for a harness that does not come back at all
+    rc, out = core.sh([exe, "sweep", str(seed), str(count), outdir] + opts + ["budget=1200"], timeout=2700)
     return rc, out
 
 
@@ -112,6 +114,9 @@ def run_sweeps(ctx, sweeps, want_trace=True):
         if rc != 0:
             raise RuntimeError("e2e sweep %s failed: %s" % (name, out[-2000:]))
         summ = open(os.path.join(d, "summary.txt")).read().splitlines()
+        for line in summ:
+            if line.startswith("stopped: time budget"):
+                core.log("sweep %s %s" % (name, line))
         info = {}
         for line in summ:
             m = re.match(r"case (\d+) block_seed=(\d+) sched_seed=(\d+) (.*)", line)
